@@ -1,11 +1,12 @@
 #!/bin/bash
 # run all checks against each benign refactoring patch in /verif/benign/<id>/patch.diff; any new violation key is a false alarm
-# usage: benign_scan.sh [id-prefix ...]   (default: all)
+# usage: [PAR=4] benign_scan.sh [id-prefix ...]   (default: all)
 cd /verif
 sel="${@:-}"
+list=""
 for d in /verif/benign/*/; do
   k=$(basename $d)
   if [ -n "$sel" ]; then ok=0; for s in $sel; do [[ $k == $s* ]] && ok=1; done; [ $ok = 1 ] || continue; fi
-  r=$(python3 tools/seedcheck.py $d --skip-suite --skip-demo --no-write 2>/dev/null | python3 -c "import json,sys; d=json.load(sys.stdin); print(d.get('patch_applies'), json.dumps(d.get('checks_caught',{})))")
-  echo "BENIGN $k: $r"
+  list="$list $k"
 done
+echo $list | tr ' ' '\n' | xargs -P ${PAR:-4} -I@@ sh -c 'r=$(python3 tools/seedcheck.py /verif/benign/@@ --skip-suite --skip-demo --no-write 2>/dev/null | python3 -c "import json,sys; d=json.load(sys.stdin); print(d.get(\"patch_applies\"), json.dumps(d.get(\"checks_caught\",{})))"); echo "BENIGN @@: $r"' | sort
